@@ -124,6 +124,12 @@ fn op_gen(req: &Value) -> Value {
                     out["parse_error"] = Value::String(e.to_string());
                 }
             }
+            if req.get("edges").and_then(Value::as_bool).unwrap_or(false) {
+                match syn::parse2::<syn::File>(ts.clone()) {
+                    Ok(f) => out["edges"] = inspect::containment_edges(&f),
+                    Err(e) => out["parse_error"] = Value::String(e.to_string()),
+                }
+            }
             if req.get("digest").and_then(Value::as_bool).unwrap_or(false) {
                 out["digest"] = Value::String(format!("{:016x}", fnv(ts.to_string().as_bytes())));
             }
@@ -148,7 +154,7 @@ fn op_inspect_text(req: &Value) -> Value {
     match syn::parse_file(text) {
         Ok(f) => {
             use quote::ToTokens;
-            json!({"status": "ok", "items": inspect::file_to_json(&f),
+            json!({"status": "ok", "items": inspect::file_to_json(&f), "edges": inspect::containment_edges(&f),
                    "inner_attrs": f.attrs.iter().map(|a| a.to_token_stream().to_string()).collect::<Vec<_>>(),
                    "tokens": f.items.iter().map(|i| i.to_token_stream().to_string()).collect::<Vec<_>>().join(" ")})
         }
